@@ -94,9 +94,12 @@ Definition opt_disable_all (master : host) (nodes : list host) : prog oerr :=
   Ret (if existsb (fun e => match e with Some _ => true | None => false end) errs then Some EOther else None).
 
 (* stopActiveNodeOptimization hands cluster.Get(oldMaster) to DisableAll: a recorded master the
-   process has no handle for is a nil node, dereferenced right after the registry listing *)
+   process has no handle for is a nil node, dereferenced right after the registry listing
+   (stateManager does not get here with an unregistered master); members of the active list
+   that are not registered hosts are skipped *)
 Definition opt_disable_all_k (known : bool) (master : host) (nodes : list host) : prog oerr :=
   if known then opt_disable_all master nodes else (dcs_children_ 50153 POptNodes ;;; Panic 50114).
+Definition registered_only (all : list host) (l : list host) : list host := filter (fun h => mem_host h all) l.
 
 (* ---- helpers --------------------------------------------------------------------- *)
 Definition lock_acquire (s : site) : prog bool :=
@@ -271,8 +274,7 @@ Definition bound_of (cfg : config) : Z :=
 (* phase 1 branch *)
 Definition freeze_host (env : sw_env) (h : host) : prog resp :=
   match state_ping (se_state env) h with
-  | None => Panic 1261
-  | Some false => Ret (RErr EOther)
+  | None | Some false => Ret (RErr EOther)     (* a member that is not a registered host counts as unreachable *)
   | Some true =>
       e <- set_read_only h true ;;
       match e with
@@ -284,8 +286,7 @@ Definition freeze_host (env : sw_env) (h : host) : prog resp :=
 (* phase 2 branch *)
 Definition stop_io_host (env : sw_env) (h : host) (casc : bool) : prog resp :=
   match state_ping (se_state env) h with
-  | None => Panic 1316
-  | Some false => Ret (RErr EOther)
+  | None | Some false => Ret (RErr EOther)
   | Some true =>
       e <- exec_ 1323 h SStopIO ;;
       match e with
@@ -313,7 +314,7 @@ Definition sw_promote (cfg : config) (env : sw_env) (mem : an_mem) (active : lis
   match e5 with Some _ => Ret (SwErr 1439, mem) | None =>
   Par 1441 (map (fun h => (h,
       match state_ping cs2 h with
-      | None => if N.eqb h nm then Ret ROk else Panic 1442
+      | None => Ret ROk
       | Some pok => if N.eqb h nm || negb pok then Ret ROk
                     else e <- perform_change_master cfg h nm ;; Ret (match e with Some x => RErr x | None => ROk end)
       end)) active) (fun errs3 =>
@@ -364,6 +365,8 @@ Definition sw_after_positions (cfg : config) (env : sw_env) (sw : switch_rec) (m
   match sw_choose cfg sw positions most_recent_host with
   | None => Ret (SwErr 1389, mem)
   | Some nm =>
+  (* cluster.Get(newMaster) == nil: a requested target that is not a registered host *)
+  if negb (mem_host nm (map fst (se_all_hosts env))) then Ret (SwErr 1399, mem) else
   pre <- (if negb (N.eqb nm most_recent_host) then
             e <- exec_ 1401 most_recent_host SSetOnline ;;
             match e with
@@ -396,7 +399,7 @@ Definition perform_switchover (cfg : config) (env : sw_env) (sw : switch_rec) (m
     | _, _ => active_with_old
     end in
   (* stopActiveNodeOptimization: cluster.Get of the old master and of every candidate; a nil handle is dereferenced *)
-  e0 <- opt_disable_all_k (mem_host old (map fst (se_all_hosts env)) && forallb (fun h => mem_host h (map fst (se_all_hosts env))) active) old active ;;
+  e0 <- opt_disable_all_k (mem_host old (map fst (se_all_hosts env))) old (registered_only (map fst (se_all_hosts env)) active) ;;
   match e0 with Some _ => Ret (SwErr 1245, mem) | None =>
   (if negb (is_failover sw) then start_timing_now 0 else Ret tt) ;;;
   Par 1260 (map (fun h => (h, freeze_host env h)) active) (fun errs =>
